@@ -142,7 +142,7 @@ pub fn probe(out: &mut Out, seed: u64, tier: &str) {
             let chn = Channel::try_from(rng.below(16) as u32).unwrap();
             let do_reset = rng.below(40) == 0;
             #[cfg(feature = "std")]
-            helgoboss_midi::verif_hooks::set_now_nanos(helgoboss_midi::verif_hooks::now_nanos() + rng.below(5));
+            crate::clock::set_now_nanos(crate::clock::now_nanos() + rng.below(5));
             let (x, c) = region(|| {
                 let mut acc = 0u64;
                 acc += a.feed(&m).map(|x| x.value().get() as u64).unwrap_or(0);
